@@ -83,6 +83,14 @@ def load_units():
                 if u.name in units:
                     raise SystemExit("duplicate unit " + u.name)
                 units[u.name] = u
+    # a unit file may attach further properties to units defined elsewhere
+    # (e.g. C18 counts the assigns-clause obligations of the block-layer units)
+    for fn in sorted(os.listdir(udir)):
+        if fn.endswith(".py") and not fn.startswith("_"):
+            mod = importlib.import_module("units." + fn[:-3])
+            for name, extra in getattr(mod, "EXTRA_PROPS", {}).items():
+                if name in units:
+                    units[name].props.update(extra)
     return units
 
 
